@@ -15,8 +15,30 @@ func (fr *Frame) fneg(x *Term) *Term {
 	return App("fp.neg", x)
 }
 
+func isRealNumeral(t *Term) bool {
+	if t.Op == "" {
+		return len(t.Atom) > 0 && t.Atom[0] >= '0' && t.Atom[0] <= '9'
+	}
+	if (t.Op == "-" && len(t.Args) == 1) || t.Op == "/" {
+		for _, a := range t.Args {
+			if !isRealNumeral(a) {
+				return false
+			}
+		}
+		return true
+	}
+	return false
+}
+
 func (e *Engine) fop(op string, x, y *Term) *Term {
 	if e.FloatSort == "Real" {
+		if e.ufArith && (op == "*" || op == "/") && !isRealNumeral(x) && !isRealNumeral(y) {
+			// products / quotients of two symbolic values stay uninterpreted: only syntactic equality matters
+			if op == "*" {
+				return App("fmulU", x, y)
+			}
+			return App("fdivU", x, y)
+		}
 		switch op {
 		case "+", "-", "*", "/":
 			return App(op, x, y)
